@@ -1,0 +1,73 @@
+//go:build verif
+
+// Contracts for govc (/verif): C23 "Only queueing makes a cached transaction eligible for proposal" (storage/badger_cache.go).
+// Comment-only file. T-KV vocabulary, key-space conventions: zz_contracts_c03_verif.go; iterator model: /verif/govc/trusted/badger.spec.
+
+package storage
+
+//@ -- ═════════ key space of the cache DB ═════════
+//@ --   CACHETRANSACTIONQUEUE | be64(ts) | hash     the scheduling record (one per queueing), kind 10, 21 + 8 + 32 = 61 bytes
+//@ --   CACHETRANSACTIONORDER | hash                "is queued" marker, kind 11
+//@ --   CACHETRANSACTIONPAYLOAD | hash              the stored body, kind 12
+//@ -- ASSUMED like the key space of zz_contracts_c03_verif.go: the three prefixes differ at byte 16 ('Q', 'O', 'P'), so they are prefix-free and
+//@ -- an ORDER/PAYLOAD key does not carry the QUEUE prefix; widths are fixed, so the constructors are injective and parsing inverts them
+//@ -- (keynum = ts, keyhid = id of the 32 hash bytes); bytes [29, 61) of a queue key are the hash (kvsub).
+//@ uninterp QueueKeyId(ts mathint, h mathint) mathint
+//@ uninterp OrderKeyId(h mathint) mathint
+//@ uninterp PayloadKeyId(h mathint) mathint
+//@ axiom forall ts, h mathint :: {QueueKeyId(ts, h)} keykind(QueueKeyId(ts, h)) == 10 && keyhid(QueueKeyId(ts, h)) == h && badger.keylen(QueueKeyId(ts, h)) == 61 && kvsub(QueueKeyId(ts, h), 29, 61) == h &&
+//@     badger.keypfx(QueueKeyId(ts, h), strkey(cachePrefixTransactionQueue)) == 0 && (0 <= ts && ts < 18446744073709551616 ==> keynum(QueueKeyId(ts, h)) == ts)
+//@ axiom forall h mathint :: {OrderKeyId(h)} keykind(OrderKeyId(h)) == 11 && keyhid(OrderKeyId(h)) == h && badger.keypfx(OrderKeyId(h), strkey(cachePrefixTransactionQueue)) != 0
+//@ axiom forall h mathint :: {PayloadKeyId(h)} keykind(PayloadKeyId(h)) == 12 && keyhid(PayloadKeyId(h)) == h && badger.keypfx(PayloadKeyId(h), strkey(cachePrefixTransactionQueue)) != 0
+//@ spec QK(ts mathint, h crypto.Hash) mathint = QueueKeyId(ts, kvval(h))
+//@ spec OK(h crypto.Hash) mathint = OrderKeyId(kvval(h))
+//@ spec PK(h crypto.Hash) mathint = PayloadKeyId(kvval(h))
+//@ spec IsQueueKey(k mathint) bool = k == QueueKeyId(keynum(k), keyhid(k)) && 0 <= keynum(k) && keynum(k) < 18446744073709551616
+
+//@ assume func cacheTransactionCacheKey
+//@   modifies nothing
+//@   ensures fresh(result) && len(result) > 0 && kvkey(result) == PK(hash)
+//@ assume func cacheTransactionOrderKey
+//@   modifies nothing
+//@   ensures fresh(result) && len(result) > 0 && kvkey(result) == OK(hash)
+//@ -- the queue key of (0, zero hash) is the LEAST queue key (all-zero suffix after the common prefix): where CacheRetrieveTransactions seeks to
+//@ assume func cacheTransactionQueueKey
+//@   modifies nothing
+//@   ensures fresh(result) && len(result) > 0 && kvkey(result) == QK(ts, hash)
+//@   ensures [least] ts == 0 && !hash.HasValue() ==> forall t2, h2 mathint :: {badger.keylt(QueueKeyId(t2, h2), kvkey(result))} !badger.keylt(QueueKeyId(t2, h2), kvkey(result))
+
+//@ -- ═════════ abstract state (Q, O, P) of the cache DB ═════════
+//@ spec Body(t badger.Txn, h crypto.Hash) mathint = badger.kvget(t, PK(h))                 -- id of the stored body, 0 = none
+//@ spec Marked(t badger.Txn, h crypto.Hash) bool = badger.kvget(t, OK(h)) != 0           -- the "is queued" marker
+//@ spec DbBody(d badger.DB, h crypto.Hash) mathint = badger.dbget(d, PK(h))
+//@ spec DbMarked(d badger.DB, h crypto.Hash) bool = badger.dbget(d, OK(h)) != 0
+//@ -- DbQueued(d, h): some scheduling record for h exists -- exactly what CacheRetrieveTransactions iterates over
+//@ spec DbQueued(d badger.DB, h crypto.Hash) bool = exists ts mathint :: {QueueKeyId(ts, kvval(h))} 0 <= ts && ts < 18446744073709551616 && badger.dbget(d, QK(ts, h)) != 0
+//@ spec CacheOK(s *BadgerStore) bool = s != nil && s.cacheDB != nil && s.custom != nil
+
+//@ -- ═════════ reading a body ═════════
+//@ func (s *BadgerStore) cacheReadTransaction
+//@   property C23
+//@   requires txn != nil
+//@   modifies nothing
+//@   ensures [absent] err == nil && result0 == nil ==> Body(*txn, tx) == 0
+//@   ensures [body] err == nil && result0 != nil ==> Body(*txn, tx) != 0 && common.TxSrc(result0) == Body(*txn, tx) && fresh(result0)
+
+//@ func (s *BadgerStore) CacheGetTransaction
+//@   property C23
+//@   requires s != nil && s.cacheDB != nil
+//@   modifies nothing
+//@   ensures [absent] err == nil && result0 == nil ==> DbBody(*s.cacheDB, hash) == 0
+//@   ensures [body] err == nil && result0 != nil ==> DbBody(*s.cacheDB, hash) != 0 && common.TxSrc(result0) == DbBody(*s.cacheDB, hash)
+
+//@ -- ═════════ storing a body: "never by only storing its body" ═════════
+//@ -- cacheStoreTransaction touches the PAYLOAD record of tx's hash and nothing else: no scheduling record, no marker ([only-body]).
+//@ func (s *BadgerStore) cacheStoreTransaction
+//@   property C23
+//@   requires CacheOK(s) && tx != nil
+//@   requires [decoded] common.DecodedTx(&tx.SignedTransaction) -- PayloadHash/Marshal preconditions: transactions reach the cache decoded and validated (kernel/queue.go)
+//@   modifies *s.cacheDB, tx.hash, tx.pmbytes
+//@   ensures [atomic] err != nil ==> *s.cacheDB == old(*s.cacheDB)
+//@   ensures [only-body] forall k mathint :: {badger.dbget(*s.cacheDB, k)} k != PK(tx.hash) ==> badger.dbget(*s.cacheDB, k) == old(badger.dbget(*s.cacheDB, k))
+//@   ensures [stored] err == nil ==> DbBody(*s.cacheDB, tx.hash) != 0
+//@   ensures [body-hash] let H == tx.hash in err == nil && old(DbBody(*s.cacheDB, H)) == 0 ==> common.TxHashOfVal(DbBody(*s.cacheDB, H)) == H
